@@ -16,13 +16,13 @@ pub fn def() -> PropDef {
     PropDef {
         id: "C17",
         level: "model_checking",
-        rule: "(A) every registration sequence of length <= d over 7 peers on one document; (B) every (state, event) edge of the complete state graph of one document (all 3620 ordered lists of <= 5 distinct peers out of 7, each built canonically, x 7 registrations), the successor compared with the canonically built successor state; (C) two documents pre-filled to capacity plus an unknown document: every sequence of length <= d2 over {register peer p on doc i, register on unknown doc}; (D) reopen of a file-backed store at every prefix of every sequence of (A) up to length 4; the hook clock yields strictly increasing nanos; oracle = a Vec MRU of capacity 5; non-trivial = the sequence re-registers a peer or exceeds the capacity",
+        rule: "(A) every registration sequence of length <= d over 7 peers on one document; (B) every (state, event) edge of the complete state graph of one document (all 3620 ordered lists of <= 5 distinct peers out of 7, each built canonically, x 7 registrations), the successor compared with the canonically built successor state; (C) two documents pre-filled to capacity plus an unknown document: every sequence of length <= d2 over {register peer p on doc i, register on unknown doc}; (D) reopen of a file-backed store at every prefix of every sequence of (A) up to length 4; (E) every sequence of length <= d3 over {register peer 1|2, create, remove} x {a document that exists, a document that does not}: a registration must fail exactly while the document does not exist (never created or removed), fail without effect, and a re-created document starts with an empty list (memory, and file-backed with a reopen at the end); the hook clock yields strictly increasing nanos; oracle = a Vec MRU of capacity 5; non-trivial = the sequence re-registers a peer or exceeds the capacity",
         assumptions: &[
             "the nanosecond clock is strictly increasing (hook); equal nanos / clock regressions are outside the statement",
         ],
         bound: |t| match t {
-            Tier::Quick => json!({"A": "depth <= 6 (137k sequences)", "B": "3620 states x 7 events", "C": "depth <= 3 over 15 symbols from a full state", "D": "depth <= 4, file-backed"}),
-            Tier::Thorough => json!({"A": "depth <= 7 (960k sequences)", "B": "3620 states x 7 events", "C": "depth <= 4 over 15 symbols from a full state", "D": "depth <= 5, file-backed"}),
+            Tier::Quick => json!({"A": "depth <= 6 (137k sequences)", "B": "3620 states x 7 events", "C": "depth <= 3 over 15 symbols from a full state", "D": "depth <= 4, file-backed", "E": "depth <= 5 over 8 symbols; file-backed depth <= 3"}),
+            Tier::Thorough => json!({"A": "depth <= 7 (960k sequences)", "B": "3620 states x 7 events", "C": "depth <= 4 over 15 symbols from a full state", "D": "depth <= 5, file-backed", "E": "depth <= 6 over 8 symbols; file-backed depth <= 4"}),
         },
         run,
         replay,
@@ -196,6 +196,126 @@ fn record(
     }
 }
 
+/// Family E: the life cycle of the documents themselves. (kind, doc, peer): kind 0 = register
+/// peer on doc, 1 = create doc, 2 = remove doc. Document 0 exists at the start, document 1 does
+/// not ("unknown" until it is created, and again after it has been removed).
+type LifeOp = (u8, u8, u8);
+
+fn life_symbols() -> Vec<LifeOp> {
+    let mut v = vec![];
+    for d in [0u8, 1] {
+        for p in [1u8, 2] {
+            v.push((0, d, p));
+        }
+        v.push((1, d, 0));
+        v.push((2, d, 0));
+    }
+    v
+}
+
+fn run_life(ops: &[LifeOp], file_backed: bool) -> (Vec<(&'static str, String)>, String) {
+    iroh_docs::verif::set_clock_nanos(Some(1_000_000));
+    let mut bad = vec![];
+    let dir = file_backed.then(scratch_dir);
+    let path = dir.as_ref().map(|d| d.path().join("docs.redb"));
+    let mut sut = match &path {
+        Some(p) => Sut::persistent(p).expect("store"),
+        None => Sut::memory(),
+    };
+    sut.store
+        .import_namespace(Capability::Write(ns_secret(0)))
+        .expect("import");
+    let mut model: [Option<Mru>; 2] = [Some(Mru::default()), None];
+    for (i, (kind, d, p)) in ops.iter().enumerate() {
+        let ns = ns_id(*d);
+        let m = &mut model[*d as usize];
+        match kind {
+            0 => {
+                let res = sut.store.register_useful_peer(ns, peer(*p));
+                match (m.as_mut(), res) {
+                    (Some(m), Ok(())) => m.register(*p),
+                    (Some(_), Err(e)) => bad.push(("register_ok", format!("step {i} {:?}: {e:#}", ops[i]))),
+                    (None, Ok(())) => bad.push((
+                        "unknown_document_fails",
+                        format!("step {i} {:?}: registering for a document that does not exist (never created, or removed) succeeded", ops[i]),
+                    )),
+                    (None, Err(_)) => {}
+                }
+            }
+            1 => {
+                if let Err(e) = sut.store.import_namespace(Capability::Write(ns_secret(*d))) {
+                    bad.push(("create_ok", format!("step {i}: {e:#}")));
+                }
+                if m.is_none() {
+                    *m = Some(Mru::default());
+                }
+            }
+            _ => {
+                let res = sut.store.remove_replica(&ns);
+                if m.is_some() {
+                    if let Err(e) = res {
+                        bad.push(("remove_ok", format!("step {i}: {e:#}")));
+                    }
+                }
+                *m = None;
+            }
+        }
+        if file_backed && i + 1 == ops.len() {
+            drop(sut);
+            sut = Sut::persistent(path.as_ref().unwrap()).expect("reopen");
+        }
+        for dd in [0u8, 1] {
+            let got = get(&mut sut, &ns_id(dd));
+            let w = model[dd as usize].as_ref().and_then(want);
+            if got != w {
+                bad.push((
+                    "list_is_mru_of_capacity_5",
+                    format!(
+                        "after step {i} {:?}, doc {dd} ({}): impl={:?} model={:?}",
+                        ops[i],
+                        if model[dd as usize].is_some() { "exists" } else { "does not exist" },
+                        got.map(|v| v.iter().map(|p| p[0]).collect::<Vec<_>>()),
+                        model[dd as usize].as_ref().map(|m| m.0.clone())
+                    ),
+                ));
+            }
+        }
+        if !bad.is_empty() {
+            break;
+        }
+    }
+    let rendering = format!("{:?}|{:?}", model[0].as_ref().map(|m| &m.0), model[1].as_ref().map(|m| &m.0));
+    iroh_docs::verif::set_clock_nanos(None);
+    (bad, rendering)
+}
+
+fn record_life(report: &mut Report, ops: &[LifeOp], file_backed: bool, ordinal: u64) {
+    report.evaluations += 1;
+    report.traces += 1;
+    report.transitions += ops.len() as u64;
+    report.max_depth = report.max_depth.max(ops.len() as u64);
+    // non-trivial: a registration follows a removal or a failed registration of the same document
+    let nt = ops.iter().enumerate().any(|(i, (k, d, _))| {
+        *k == 0 && ops[..i].iter().any(|(k2, d2, _)| d2 == d && (*k2 == 2 || (*k2 == 0 && *d == 1)))
+    });
+    if nt {
+        report.nontrivial += 1;
+    }
+    let case = json!({"life": ops, "file_backed": file_backed});
+    match catch(|| run_life(ops, file_backed)) {
+        Err(p) => report.violation("no_panic", json!({"family": "E"}), case, format!("panic: {p}"), ordinal),
+        Ok((bad, rendering)) => {
+            report.outcome(format!("E:{rendering}"));
+            for (o, d) in bad {
+                report.violation(o, json!({"family": "E", "file_backed": file_backed}), case.clone(), d, ordinal);
+            }
+            if nt && ops.len() >= 4 {
+                report.sample(|| json!({"family": "E", "ops": ops, "final_lists": rendering}));
+            }
+        }
+    }
+}
+
 fn all_lists() -> Vec<Vec<u8>> {
     // ordered lists of <= 5 distinct peers out of 7
     let mut out = vec![vec![]];
@@ -283,9 +403,45 @@ fn run(ctx: &Ctx, report: &mut Report) {
             }
         });
     }
+    // (E) creation and removal of the documents between registrations
+    let symbols = life_symbols();
+    for depth in 1..=(if quick { 5 } else { 6 }) {
+        for_each_sequence(symbols.len(), depth, |seq| {
+            ordinal += 1;
+            if !ctx.mine(ordinal) {
+                return;
+            }
+            let ops: Vec<LifeOp> = seq.iter().map(|&i| symbols[i]).collect();
+            record_life(report, &ops, false, ordinal);
+        });
+    }
+    for depth in 1..=(if quick { 3 } else { 4 }) {
+        for_each_sequence(symbols.len(), depth, |seq| {
+            ordinal += 1;
+            if !ctx.mine(ordinal) {
+                return;
+            }
+            let ops: Vec<LifeOp> = seq.iter().map(|&i| symbols[i]).collect();
+            record_life(report, &ops, true, ordinal);
+        });
+    }
 }
 
 fn replay(case: &Value) -> anyhow::Result<(bool, String)> {
+    if !case["life"].is_null() {
+        let ops: Vec<LifeOp> = serde_json::from_value(case["life"].clone())?;
+        let file_backed = case["file_backed"].as_bool().unwrap_or(false);
+        return match catch(|| run_life(&ops, file_backed)) {
+            Err(p) => Ok((true, format!("panic: {p}"))),
+            Ok((bad, rendering)) => {
+                let mut out = format!("life-cycle ops (kind 0=register 1=create 2=remove, doc, peer) {ops:?}\nmodel lists {rendering}\n");
+                for (o, d) in &bad {
+                    out.push_str(&format!("FAILED {o}: {d}\n"));
+                }
+                Ok((!bad.is_empty(), out))
+            }
+        };
+    }
     let pre: Vec<Op> = serde_json::from_value(case["pre"].clone())?;
     let ops: Vec<Op> = serde_json::from_value(case["ops"].clone())?;
     let reopen: Option<usize> = serde_json::from_value(case["reopen_at"].clone())?;
